@@ -445,7 +445,16 @@ func violationKey(v Violation) string {
 	if v.Kind == "assert" {
 		d = ""
 	}
-	return v.Label + "|" + v.Kind + "|" + d
+	// tags are part of the key: the driver matches known findings by
+	// label{tags}, so a violation with new tags must never be dropped as a
+	// duplicate of one with other tags
+	tags := append([]string(nil), v.Tags...)
+	sort.Strings(tags)
+	t := ""
+	if len(tags) > 0 {
+		t = "{" + strings.Join(tags, ",") + "}"
+	}
+	return v.Label + t + "|" + v.Kind + "|" + d
 }
 
 func master(cfg *config) int {
@@ -652,7 +661,7 @@ func master(cfg *config) int {
 			sum.ViolationN[k]++
 			if !vioSeen[k] || sum.ViolationN[k] <= 3 {
 				vioSeen[k] = true
-				if len(sum.Violations) < 200 {
+				if len(sum.Violations) < 600 {
 					sum.Violations = append(sum.Violations, v)
 				}
 			}
